@@ -69,38 +69,44 @@ func (tt *testTrie) matchPattern(pattern string) bool {
 }
 
 func (tt *testTrie) match(components []string) bool {
+	// All alternatives are tried, even after one has matched, so that every
+	// pattern that matches is marked as matched (see allUnmatched).
+	var matched bool
 	if len(components) == 0 {
 		if tt.present {
 			tt.matched.Add(1)
-			return true
+			matched = true
 		}
 		// See if there's a double-wildcard that may match the empty remaining components.
 		// (Recursing, instead of only checking child.present, also handles consecutive
 		// double-wildcards such as "a/**/**".)
 		child := tt.children["**"]
-		return child != nil && child.match(components)
+		if child != nil && child.match(components) {
+			matched = true
+		}
+		return matched
 	}
 	first, rest := components[0], components[1:]
 	child := tt.children[first]
 	if child != nil && child.match(rest) {
-		return true
+		matched = true
 	}
 	child = tt.children["*"]
 	if child != nil && child.match(rest) {
-		return true
+		matched = true
 	}
 
 	// ** can match zero or more components
 	child = tt.children["**"]
 	if child == nil {
-		return false
+		return matched
 	}
 	for {
 		if child.match(components) {
-			return true
+			matched = true
 		}
 		if len(components) == 0 {
-			return child.present
+			return matched
 		}
 		components = components[1:]
 	}
